@@ -186,6 +186,9 @@ Section T.
     assert (HE : bd_E rpe = c_value (sp_Ce sp)).
     { unfold boudot_prove in Hrpe. destruct (max_e CS <=? min_e CS); [discriminate|].
       mstep Hrpe Ep e1 HEp. mstep Hrpe wt e2 Hwt. apply mret_ok in Hrpe as [-> _]. reflexivity. }
+    assert (Hlper : length per = length U).
+    { apply (mmapM_forall _ (fun _ => True) U _ _ _ (fun _ _ _ _ _ => I) Hper). }
+    rewrite !map_length, Hlper, Nat.eqb_refl. cbn [andb negb].
     rewrite HE, Z.eqb_refl. rewrite Hg0. cbn [bind]. rewrite HNm in *.
     rewrite (boudot_complete _ HN g0 g0i (ck_h ck) hi Hg0i Hhi BP (s_e sg) (sp_Ce sp) _ _ _ _ _ Ht HCe Hrpe).
     eapply (spok_loop_complete CS BP (pk_N pk) HN Ht msgs ck hi HNm Hhi Hcg Hm0). rewrite HNm. exact Hper.
